@@ -1,0 +1,14 @@
+//go:build verif
+
+package git
+
+import (
+	"github.com/go-git/go-git/v6/plumbing"
+	"github.com/go-git/go-git/v6/plumbing/storer"
+)
+
+// IsFastForwardForVerif exposes isFastForward to the external
+// verification harness.
+func IsFastForwardForVerif(s storer.EncodedObjectStorer, old, newHash plumbing.Hash, shallows []plumbing.Hash) (bool, error) {
+	return isFastForward(s, old, newHash, shallows)
+}
